@@ -2,12 +2,23 @@
 
 A case is a *history*: headers (hash, parent, weight), then a list of events, each a delivery
 ["d", [header indices]] handed to BlockChain.add_headers as one batch, or a lock ["l", k] = lock_to_index(k).
-After every delivery the reported chain and both lookup directions are read back through the public API and
+After every delivery (except those marked ["q", [...]]: handed over without looking at the tracker afterwards, as a
+client does that only reads now and then) the reported chain and both lookup directions are read back through the public API and
 judged against vmon/refs/chain.py; the ops returned and the ops sent to a registered callback are replayed on
 two lists that must equal the reported chain.
+
+Every history runs under a *mode*: the REPRESENTATION of the hash values (rep = "shared": one table of hash
+objects handed to hash(), previous_block_hash and the queries alike; "fresh": every hash() call, every
+previous_block_hash read, the anchor given to the constructor and every query argument is an equal but newly
+created object - computed ints above the small-int cache, bytes built per use; "block": real pycoin Block headers
+parsed from their own 80 serialised bytes, whose hash() is the double-SHA256 computed per call), the way the
+tracker is constructed (own storage dict / the constructor's default arguments, which all trackers of a process
+share) and the kind of iterable handed to add_headers (list / tuple / one-shot generator).
 """
 import hashlib
+import io
 import itertools
+import struct
 
 from vmon.probe import shard_rng, observe
 from vmon.refs import chain as RC
@@ -15,15 +26,32 @@ from vmon.refs import chain as RC
 PROPERTY = "C15"
 LEVEL = "exploration"
 TECHNIQUE = ("offline checker over API histories of BlockChain vs a from-the-definition heaviest-chain oracle; exhaustive "
-             "enumeration of forests x delivery orders x batchings x single locks for small N under several hash labelings")
+             "enumeration of forests x delivery orders x batchings x single locks for small N under several hash labelings "
+             "and hash-object representations (shared table / fresh equal object per use / parsed Block headers)")
 RULE = ("histories = headers (hash, parent, weight>0) + events (batches handed to add_headers, lock_to_index calls). "
         "Exhaustive part: every acyclic parent function on N labelled headers (parent = anchor | another header | never-"
         "delivered hash) x every delivery permutation x every batching, N<=4 (quick) / N<=5 (thorough), each also with "
         "every single lock_to_index(k), 1<=k<=length, between two batches (N<=4, in quick for three of the five labelings and sampled for the others; "
         "sampled for N=5) and, for N<=3 (N<=4 in thorough for two labelings), with every single re-delivery of one header, "
         "under hash labelings "
-        "ascending / descending / scattered ints / 32-byte strings with several PYTHONHASHSEEDs. Sampled part: N=6..14, "
-        "random positive integer weights, re-delivered headers, several locks. A history is distinct by (forest renamed "
+        "ascending small ints / descending computed ints above 2**64 (same set order as the small ones) / scattered ints "
+        "(small, negative, 2**40.., above 2**64) / 32-byte strings / real Block headers parsed from 80 serialised bytes, "
+        "with several PYTHONHASHSEEDs. Each labeling has a REPRESENTATION: shared (one table of hash objects serves "
+        "hash(), previous_block_hash, the constructor and the queries), fresh (each of those uses is a newly created equal "
+        "object; ints within the interpreter's small-int cache cannot be duplicated and stay shared) or block (pycoin "
+        "Block.parse_as_header of per-header bytes; Block.hash() computes a new digest per call); a constructor form "
+        "(own storage dict / default arguments shared by all trackers of the process) and a batch form (list, then "
+        "emptied by the caller together with the returned ops list / tuple / one-shot generator). Weights: unit, "
+        "mixed 1..4, and 'pow' = mixed*2**70 + (0|1) so that totals lie far above 2**53, some chains tie exactly and some "
+        "differ by 1 or 2. Sampled part: N=6..14, "
+        "random positive integer weights (unit, small, wide, proof-of-work sized k*2**70+tiny), re-delivered headers, "
+        "several locks, forests biased to forks at the anchor (a fifth of them: only competing branches that start at the "
+        "anchor), 15% of the histories with most deliveries not followed by any read of the tracker; 'twin' histories (two live default-constructed trackers "
+        "fed the same forest in different orders with their own locks, steps interleaved); 'duel' histories generated "
+        "against the reported chain (rival branches growing from the lock point = anchor or last locked block, or from "
+        "a block above it, sized to fall short of / tie / overtake the unlocked part, delivered in order, reversed or "
+        "shuffled, extensions of arbitrary known headers for flip-backs, locks, re-deliveries; up to 40 headers). "
+        "A history is distinct by (forest renamed "
         "by first-delivery position, delivery order, batch sizes, locks, weights when not all 1) - labelings of the same "
         "history are NOT counted as distinct - and non-trivial when it contains a fork or an orphan (a header delivered "
         "before its parent or whose parent never arrives); plain in-order chains are counted under history.plain. In the "
@@ -35,6 +63,11 @@ ASSUMPTIONS = [
     "header again); weights are positive integers; the anchor hash is never delivered; no cycles",
     "the reported chain is [hash_for_index(i) for i in range(length())]; ties between equal-weight chains may be broken "
     "either way, but the ops must then reproduce whichever chain is reported",
+    "two hash values denote the same header when they compare equal (==); nothing may depend on their being the same "
+    "object. The iterable given to add_headers is consumed once; after the call the caller may empty the list it passed "
+    "and the list of ops it got back",
+    "block representation: the header's weight is its 32-bit difficulty field as parsed; its hash is the double-SHA256 of "
+    "the 80 header bytes (the harness stops as inconclusive if pycoin's Block disagrees with hashlib on that)",
     "lock_to_index(k) is only called with 0 <= k <= length(); the locked prefix is the first k entries of the chain "
     "reported (and judged correct) after the preceding delivery",
     "the statement speaks about the state after each delivery; nothing is judged between a lock and the next delivery",
@@ -53,45 +86,62 @@ def exhaustive(tier):
 
 
 def configurations(tier):
-    return ["labeling=%s unknown-parents=%s weights=%s PYTHONHASHSEED=%s" % c for c in _label_configs(tier)]
+    return ["labeling=%s unknown-parents=%s weights=%s PYTHONHASHSEED=%s representation=%s constructor=%s batch=%s" % c
+            for c in _label_configs(tier)] + ["sampled/twin/duel histories: labeling, representation, constructor and batch "
+                                              "form drawn per history"]
 
 
 def _label_configs(tier):
-    # (labeling, never-delivered parents shared or one per header, weights, PYTHONHASHSEED)
-    cfg = [("asc", "shared", "unit", 0), ("desc", "shared", "unit", 0), ("scat", "distinct", "mixed", 0),
-           ("bytes", "distinct", "unit", 0), ("bytes", "shared", "mixed", 1)]
+    # (labeling, never-delivered parents shared or one per header, weights, PYTHONHASHSEED, representation, ctor, feed)
+    cfg = [("asc", "shared", "unit", 0, "shared", "default", "list"),
+           ("bigdesc", "shared", "unit", 0, "fresh", "own", "gen"),
+           ("scat", "distinct", "mixed", 0, "fresh", "own", "list"),
+           ("block", "distinct", "unit", 0, "block", "own", "tuple"),
+           ("bytes", "shared", "pow", 1, "fresh", "own", "list")]
     if tier != "quick":
-        cfg += [("desc", "distinct", "mixed", 0), ("scat", "shared", "unit", 0), ("bytes", "distinct", "unit", 2)]
+        cfg += [("desc", "distinct", "mixed", 0, "shared", "own", "list"),
+                ("scat", "shared", "unit", 0, "shared", "default", "gen"),
+                ("bytes", "distinct", "unit", 2, "shared", "own", "list"),
+                ("bigasc", "distinct", "pow", 0, "fresh", "default", "list"),
+                ("block", "shared", "mixed", 1, "block", "default", "list")]
     return cfg
+
+
+def _exh_shard(c, **kw):
+    sch, unk, wm, hs, rp, ctor, feed = c
+    d = {"kind": "exh", "scheme": sch, "unk": unk, "weights": wm, "mode": {"rep": rp, "ctor": ctor, "feed": feed},
+         "env": {"PYTHONHASHSEED": hs}}
+    d.update(kw)
+    return d
 
 
 def plan(tier, seed):
     shards = []
     cfgs = _label_configs(tier)
     if tier == "quick":
-        for ci, (sch, unk, wm, hs) in enumerate(cfgs):
+        for ci, c in enumerate(cfgs):
             parts = 3
             for p in range(parts):
-                shards.append({"kind": "exh", "nmax": 4, "scheme": sch, "unk": unk, "weights": wm, "part": p, "parts": parts,
-                               "locks": "all" if ci in (0, 2, 4) else "sample", "dups": 3,
-                               "env": {"PYTHONHASHSEED": hs}, "label": "exh4-%s-%s-%d" % (sch, unk, p)})
+                shards.append(_exh_shard(c, nmax=4, part=p, parts=parts, locks="all" if ci in (0, 2, 4) else "sample",
+                                         dups=3, label="exh4-%s-%s-%s-%d" % (c[0], c[1], c[4], p)))
         for i in range(16):
-            shards.append({"kind": "rand", "n": 5000, "env": {"PYTHONHASHSEED": i % 3}, "label": "rand%d" % i})
+            shards.append({"kind": "rand", "n": 3600, "duels": 700, "env": {"PYTHONHASHSEED": i % 3}, "label": "rand%d" % i})
     else:
         parts5 = 32
-        for sch, unk, wm, hs in cfgs[:4]:
+        for c in (cfgs[0], cfgs[1], cfgs[2], cfgs[4]):
             for p in range(parts5):
-                shards.append({"kind": "exh", "nmin": 5, "nmax": 5, "scheme": sch, "unk": unk, "weights": wm, "part": p,
-                               "parts": parts5, "locks": "sample", "distinct_every": 8, "env": {"PYTHONHASHSEED": hs},
-                               "label": "exh5-%s-%s-%d" % (sch, unk, p)})
-        for ci, (sch, unk, wm, hs) in enumerate(cfgs):
+                shards.append(_exh_shard(c, nmin=5, nmax=5, part=p, parts=parts5, locks="sample", distinct_every=8,
+                                         label="exh5-%s-%s-%s-%d" % (c[0], c[1], c[4], p)))
+        for p in range(parts5):     # real parsed headers: every 4th forest of the N=5 space
+            shards.append(_exh_shard(cfgs[3], nmin=5, nmax=5, part=p, parts=4 * parts5, locks="sample", distinct_every=8,
+                                     label="exh5-block-%d" % p))
+        for ci, c in enumerate(cfgs):
             parts = 8 if ci in (0, 3) else 2
             for p in range(parts):
-                shards.append({"kind": "exh", "nmax": 4, "scheme": sch, "unk": unk, "weights": wm, "part": p, "parts": parts,
-                               "locks": "all", "dups": 4 if ci in (0, 3) else 3, "env": {"PYTHONHASHSEED": hs},
-                               "label": "exh4-%s-%s-%d" % (sch, unk, p)})
+                shards.append(_exh_shard(c, nmax=4, part=p, parts=parts, locks="all", dups=4 if ci in (0, 3) else 3,
+                                         label="exh4-%s-%s-%s-%d" % (c[0], c[1], c[4], p)))
         for i in range(32):
-            shards.append({"kind": "rand", "n": 100000, "env": {"PYTHONHASHSEED": i % 4}, "label": "rand%d" % i})
+            shards.append({"kind": "rand", "n": 80000, "duels": 12000, "env": {"PYTHONHASHSEED": i % 4}, "label": "rand%d" % i})
     return shards
 
 
@@ -99,7 +149,40 @@ def selftest(rec):
     r = RC.selftest()
     # the monitor itself on a correct toy implementation and on a deliberately wrong one
     r["monitor_on_models"] = _selftest_monitor()
+    r["representations"] = _selftest_representations()
     return r
+
+
+def _selftest_representations():
+    """The 'fresh' representation must really hand out distinct objects, the big-int labelings must keep the set order
+    of the small ones, the header bytes must be the published layout (Bitcoin's genesis header)."""
+    for v in (257, -6, 10**6, 1 << 40, 1 << 64, BIGBASE + 3, -(1 << 70), b"\x01" * 32, ZERO, bytes(range(32))):
+        f = fresh(v)
+        assert f == v and type(f) is type(v) and hash(f) == hash(v), v
+        assert f is not v and fresh(v) is not f, ("interpreter shares this value; representation 'fresh' would be void", v)
+    h = FreshHdr(1 << 64, BIGBASE, 7)
+    assert h.hash() is not h.hash() and h.previous_block_hash is not h.previous_block_hash
+    assert h.hash() == 1 << 64 and h.previous_block_hash == BIGBASE and h.difficulty == 7
+    for i in range(0, 300):
+        assert hash(BIGBASE + i) == hash(i) == i
+    import random
+    a0, l0, u0 = make_labels("desc", "distinct", 5, random.Random(1))
+    a1, l1, u1 = make_labels("bigdesc", "distinct", 5, random.Random(1))
+    assert [hash(x) for x in [a1] + l1 + u1] == [a0] + l0 + u0 and min([a1] + l1 + u1) > 1 << 64
+    # Bitcoin block 0 and block 1 (public constants): layout of the 80 bytes, double-SHA256, parent link
+    g = struct.pack("<L32s32sLLL", 1, ZERO, bytes.fromhex("4a5e1e4baab89f3a32518a88c31bc87f618f76673e2cc77ab2127b7afdeda33b")[::-1],
+                    1231006505, 0x1d00ffff, 2083236893)
+    assert dsha(g)[::-1].hex() == "000000000019d6689c085ae165831e934ff763ae46a2a6c172b3f1b60a8ce26f"
+    b1 = struct.pack("<L32s32sLLL", 1, dsha(g), bytes.fromhex("0e3e2357e806b6cdb1f70b54c3a3a17b6714ee1f0e68bebb44a74b1efd512098")[::-1],
+                     1231469665, 0x1d00ffff, 2573394689)
+    assert dsha(b1)[::-1].hex() == "00000000839a8e6886ab5951d76f411475428afc90947ee320161bbf18eb6048"
+    hdrs, raws = block_forest([1, RC.ANCHOR, RC.UNKNOWN, 0], [5, 6, 7, 8], ZERO, [b"a", b"b", b"c", b"d"], [b"u" * 32] * 4)
+    assert hdrs[1][1] == ZERO and hdrs[0][1] == hdrs[1][0] and hdrs[3][1] == hdrs[0][0] and hdrs[2][1] == b"u" * 32
+    assert all(dsha(raws[i]) == hdrs[i][0] and len(raws[i]) == 80 for i in range(4)) and len({h[0] for h in hdrs}) == 4
+    assert [struct.unpack("<L", r[72:76])[0] for r in raws] == [5, 6, 7, 8]
+    ws = exh_weights("pow", 4)
+    assert ws[0] + 2 == ws[1] + ws[2] and ws[3] == ws[0] + ws[2] and float(ws[0]) == float(ws[1] + ws[2])
+    return {"fresh_values": 10, "bigbase_hash_identity": 300, "genesis_headers": 2}
 
 
 # ---------------------------------------------------------------------------------------------------------
@@ -120,13 +203,98 @@ class Hdr(object):
         return "Hdr(%r<-%r w=%r)" % (self.previous_block_hash, self.h, self.difficulty)
 
 
+_K = (1 << 90) + 12345
+
+
+def fresh(v):
+    """An object equal to v that is not v, where the interpreter can make one (ints of the small-int cache and
+    bytes shorter than two cannot be duplicated)."""
+    t = type(v)
+    if t is bytes:
+        return v[:1] + v[1:]
+    if t is int:
+        return (v + _K) - _K
+    return v
+
+
+class FreshHdr(object):
+    """The same header, but no two reads of its hash or of its parent hash give the same object - as when a
+    hash is computed on demand or sliced out of a buffer."""
+    __slots__ = ("_h", "_p", "difficulty")
+
+    def __init__(self, h, parent, weight):
+        self._h = h
+        self._p = parent
+        self.difficulty = weight
+
+    def hash(self):
+        return fresh(self._h)
+
+    @property
+    def previous_block_hash(self):
+        return fresh(self._p)
+
+    def __repr__(self):
+        return "FreshHdr(%r<-%r w=%r)" % (self._p, self._h, self.difficulty)
+
+
+MODE0 = {"rep": "shared", "ctor": "own", "feed": "list"}
+W32 = (1 << 32) - 1
+
+
+def raw_header(parent, weight, i, salt=b""):
+    """80 header bytes: version 1, parent, a merkle root and time/nonce derived from i, difficulty field = weight"""
+    merkle = hashlib.blake2b(b"m:%s:%d" % (salt, i), digest_size=32).digest()
+    return struct.pack("<L32s32sLLL", 1, parent, merkle, 1231006505 + 600 * i, weight, i)
+
+
+def dsha(raw):
+    return hashlib.sha256(hashlib.sha256(raw).digest()).digest()
+
+
 def _imports():
     from pycoin.blockchain.BlockChain import BlockChain
     return BlockChain
 
 
-def _new_chain(BlockChain, anchor):
+def make_obj(rep, hdr, raw=None):
+    """One header object in the given representation. hdr = (hash, parent, weight)."""
+    if rep == "shared":
+        return Hdr(*hdr)
+    if rep == "fresh":
+        return FreshHdr(*hdr)
+    if rep == "block":
+        from pycoin.block import Block
+        b = Block.parse_as_header(io.BytesIO(raw))
+        if b.hash() != hdr[0] or b.previous_block_hash != hdr[1] or b.difficulty != hdr[2]:
+            raise AssertionError("harness: pycoin's parsed Block header disagrees with struct/hashlib on hash, parent or "
+                                 "difficulty (not this property): %r" % (raw.hex(),))
+        return b
+    raise ValueError(rep)
+
+
+def make_objs(rep, hdrs, raws=None):
+    return [make_obj(rep, h, raws[i] if raws else None) for i, h in enumerate(hdrs)]
+
+
+def _new_chain(BlockChain, anchor, mode=MODE0):
+    if mode["rep"] == "fresh":
+        anchor = fresh(anchor)
+    elif mode["rep"] == "block":
+        anchor = bytes(bytearray(anchor))
+    if mode["ctor"] == "noargs" and anchor == ZERO:
+        return BlockChain()
+    if mode["ctor"] in ("default", "noargs"):
+        return BlockChain(anchor)
     return BlockChain(anchor, unlocked_block_storage={})
+
+
+def _feed(batch, how):
+    if how == "gen":
+        return (x for x in batch)
+    if how == "tuple":
+        return tuple(batch)
+    return batch
 
 
 def _ops_plain(ops):
@@ -146,7 +314,7 @@ def _midpath_predicate(hdrs, events):
     known = set()
     parent = {}
     for ev in events:
-        if ev[0] != "d":
+        if ev[0] == "l":
             continue
         new = []
         for i in ev[1]:
@@ -171,8 +339,9 @@ def _midpath_predicate(hdrs, events):
 class Session(object):
     """One BlockChain under observation."""
 
-    def __init__(self, BlockChain, anchor, rec):
-        self.bc = _new_chain(BlockChain, anchor)
+    def __init__(self, BlockChain, anchor, rec, mode=MODE0):
+        self.bc = _new_chain(BlockChain, anchor, mode)
+        self.mode = mode
         self.anchor = anchor
         self.rec = rec
         self.delivered = {}
@@ -183,6 +352,7 @@ class Session(object):
         self.chain = []
         self.relocked_delivery = False
         self.lock_on_tie = False
+        self.stale = False
         pend = self.cb_pending
 
         def callback(_bc, ops):
@@ -193,6 +363,8 @@ class Session(object):
     def lock(self, k):
         """-> None or (mech, observed, expected)"""
         self.rec.ev("lock_to_index")
+        if self.stale:          # (only reachable in minimised histories) look at the chain that is about to be locked
+            self.chain = [self.bc.hash_for_index(i) for i in range(self.bc.length())]
         if k > len(self.locked) and RC.count_best(self.delivered, self.anchor, self.locked) > 1:
             self.lock_on_tie = True
         st, r = observe(self.bc.lock_to_index, k)
@@ -202,21 +374,57 @@ class Session(object):
             self.locked = list(self.chain[:k])
         return None
 
-    def deliver(self, batch):
-        """batch: list of Hdr. -> None or (mech, observed, expected)."""
+    def _replay(self, ops, chain):
+        rec = self.rec
+        rec.ev("ops_returned", len(ops))
+        for op in ops:
+            st, hh = observe(lambda: (op[0], op[1].hash(), op[2]))
+            bad = "malformed op" if st != "ok" else RC.replay_op(self.replayed, *hh)
+            if bad:
+                return ("chain.ops_not_applicable", {"ops": _ops_plain(ops), "why": bad, "chain": chain}, "ops that replay")
+        return None
+
+    def _replay_cb(self, chain):
+        rec = self.rec
+        for cops in self.cb_pending:
+            rec.ev("ops_callback", len(cops))
+            for op in cops:
+                st, hh = observe(lambda: (op[0], op[1].hash(), op[2]))
+                bad = "malformed op" if st != "ok" else RC.replay_op(self.cb_replayed, *hh)
+                if bad:
+                    return ("chain.callback_ops_not_applicable", {"ops": _ops_plain(cops), "why": bad, "chain": chain}, "ops that replay")
+        del self.cb_pending[:]
+        return None
+
+    def deliver(self, batch, metas, quiet=False):
+        """batch: list of header objects, metas: their (hash, parent, weight). -> None or (mech, observed, expected).
+        quiet: nothing is read back after this delivery (its ops are still replayed): the next full delivery judges."""
         rec = self.rec
         bc = self.bc
         delivered = self.delivered
         lockset = set(self.locked)
-        for hd in batch:
-            if hd.h not in delivered:
-                delivered[hd.h] = (hd.previous_block_hash, hd.difficulty)
-            elif hd.h in lockset:
+        for h, p, w in metas:
+            if h not in delivered:
+                delivered[h] = (p, w)
+            elif h in lockset:
                 self.relocked_delivery = True
         rec.ev("add_headers")
-        st, ops = observe(bc.add_headers, batch)
+        rec.ev("add_headers.%s.%s" % (self.mode["rep"], self.mode["feed"]))
+        fresh_q = self.mode["rep"] != "shared"
+        given = _feed(batch, self.mode["feed"])
+        st, ops = observe(bc.add_headers, given)
         if st != "ok":
             return ("chain.add_headers_raises", ops, "a list of ops")
+        if given is batch:
+            del batch[:]                 # the caller's list is the caller's
+        if quiet:
+            rec.ev("add_headers.not_read_back")
+            self.stale = True
+            bad = self._replay(ops, "(not read)") or self._replay_cb("(not read)")
+            if not bad and type(ops) is list and self.mode["feed"] == "list":
+                del ops[:]
+            return bad
+        self.stale = False
         # --- read the reported chain back
         rec.ev("length")
         st, n = observe(bc.length)
@@ -248,7 +456,7 @@ class Session(object):
         pos = {h: i for i, h in enumerate(chain)}
         rec.ev("index_for_hash", len(delivered))
         for h in delivered:
-            st, idx = observe(bc.index_for_hash, h)
+            st, idx = observe(bc.index_for_hash, fresh(h) if fresh_q else h)
             if st != "ok":
                 return ("chain.index_for_hash_raises", {"hash": h, "exc": idx}, pos.get(h))
             if idx != pos.get(h) or (idx is not None and type(idx) is not int):
@@ -267,22 +475,16 @@ class Session(object):
         if st != "ok" or last != want:
             return ("chain.last_block_hash_mismatch", {"last_block_hash": last, "chain": chain}, want)
         # (d) ops replay: returned ops, then callback ops
-        rec.ev("ops_returned", len(ops))
-        for op in ops:
-            st, hh = observe(lambda: (op[0], op[1].hash(), op[2]))
-            bad = "malformed op" if st != "ok" else RC.replay_op(self.replayed, *hh)
-            if bad:
-                return ("chain.ops_not_applicable", {"ops": _ops_plain(ops), "why": bad, "chain": chain}, "ops that replay")
+        bad = self._replay(ops, chain)
+        if bad:
+            return bad
         if self.replayed != chain:
             return ("chain.ops_replay_differs_from_chain", {"ops": _ops_plain(ops), "replayed": self.replayed, "chain": chain}, chain)
-        for cops in self.cb_pending:
-            rec.ev("ops_callback", len(cops))
-            for op in cops:
-                st, hh = observe(lambda: (op[0], op[1].hash(), op[2]))
-                bad = "malformed op" if st != "ok" else RC.replay_op(self.cb_replayed, *hh)
-                if bad:
-                    return ("chain.callback_ops_not_applicable", {"ops": _ops_plain(cops), "why": bad, "chain": chain}, "ops that replay")
-        del self.cb_pending[:]
+        if type(ops) is list and self.mode["feed"] == "list":
+            del ops[:]                   # what was returned is the caller's too
+        bad = self._replay_cb(chain)
+        if bad:
+            return bad
         if self.cb_replayed != chain:
             return ("chain.callback_ops_replay_differs_from_chain", {"replayed": self.cb_replayed, "chain": chain}, chain)
         return None
@@ -307,12 +509,21 @@ def classify(symptom, hdrs, events, sess):
     return symptom
 
 
-def run_history(BlockChain, anchor, hdrs, events, rec, objs=None):
+def make_case(anchor, hdrs, events, mode, raws=None):
+    case = {"anchor": anchor, "hdrs": [list(h) for h in hdrs],
+            "events": [list(e) if e[0] == "l" else [e[0], list(e[1])] for e in events], "mode": dict(mode)}
+    if mode["rep"] == "block":
+        case["raw"] = list(raws)
+    return case
+
+
+def run_history(BlockChain, anchor, hdrs, events, rec, objs=None, mode=MODE0, raws=None):
     """Run one concrete history. Returns (verdict, lengths) where verdict is None or
     (mech, case, observed, expected) and lengths[i] = reported length after event i (None for locks)."""
-    sess = Session(BlockChain, anchor, rec)
+    sess = Session(BlockChain, anchor, rec, mode)
+    rp = mode["rep"]
     if objs is None:
-        objs = [Hdr(*h) for h in hdrs]
+        objs = make_objs(rp, hdrs, raws)
     lengths = []
     seen_idx = set()
     for k, ev in enumerate(events):
@@ -323,18 +534,42 @@ def run_history(BlockChain, anchor, hdrs, events, rec, objs=None):
             batch = []
             for i in ev[1]:
                 if i in seen_idx:       # a re-delivery is a fresh object with the same fields
-                    batch.append(Hdr(*hdrs[i]))
+                    batch.append(make_obj(rp, hdrs[i], raws[i] if raws else None))
                 else:
                     seen_idx.add(i)
                     batch.append(objs[i])
-            bad = sess.deliver(batch)
+            bad = sess.deliver(batch, [hdrs[i] for i in ev[1]], quiet=ev[0] == "q")
             lengths.append(len(sess.chain))
         if bad:
-            done = [list(e) if e[0] == "l" else ["d", list(e[1])] for e in events[:k + 1]]
-            case = {"anchor": anchor, "hdrs": [list(h) for h in hdrs], "events": done}
-            mech = classify(bad[0], hdrs, done, sess)
+            case = make_case(anchor, hdrs, events[:k + 1], mode, raws)
+            mech = classify(bad[0], hdrs, case["events"], sess)
             return (mech, case, {"symptom": bad[0], "seen": bad[1]}, bad[2]), lengths
     return None, lengths
+
+
+def run_twin(BlockChain, anchor, hdrs, events_a, events_b, rec, mode, raws=None):
+    """Two live trackers over the same forest, each with its own event list, stepped alternately (a0 b0 a1 b1 ...).
+    -> None or (mech, case, observed, expected); the case carries both event lists up to the failing step."""
+    rp = mode["rep"]
+    sides = [(Session(BlockChain, anchor, rec, mode), events_a, "a"), (Session(BlockChain, anchor, rec, mode), events_b, "b")]
+    for k in range(max(len(events_a), len(events_b))):
+        for sess, events, name in sides:
+            if k >= len(events):
+                continue
+            ev = events[k]
+            if ev[0] == "l":
+                bad = sess.lock(ev[1])
+            else:
+                batch = [make_obj(rp, hdrs[i], raws[i] if raws else None) for i in ev[1]]
+                bad = sess.deliver(batch, [hdrs[i] for i in ev[1]], quiet=ev[0] == "q")
+            if bad:
+                mine = make_case(anchor, hdrs, events[:k + 1], mode, raws)
+                other = events_b if name == "a" else events_a
+                mine["peer_events"] = make_case(anchor, hdrs, other[:k + 1 if name == "b" else k], mode, raws)["events"]
+                mine["failed_side"] = name
+                mech = classify(bad[0], hdrs, mine["events"], sess)
+                return (mech, mine, {"symptom": bad[0], "seen": bad[1], "tracker": name}, bad[2])
+    return None
 
 
 # ---------------------------------------------------------------------------------------------------------
@@ -348,30 +583,80 @@ def make_labels(scheme, unk, n, rng):
     elif scheme == "desc":
         anchor, labels = 0, [9 + n - i for i in range(n)]
         unknown = [100 + i for i in range(n)]
+    elif scheme in ("bigasc", "bigdesc"):
+        # computed ints above 2**64 whose Python hash is the small int of the asc/desc scheme (same set order)
+        anchor, labels, unknown = make_labels(scheme[3:], "distinct", n, rng)
+        anchor, labels, unknown = BIGBASE + anchor, [BIGBASE + x for x in labels], [BIGBASE + x for x in unknown]
     elif scheme == "scat":
         pool = set()
         while len(pool) < 2 * n + 1:
             r = rng.random()
-            if r < 0.35:
+            if r < 0.3:
                 pool.add(8 * rng.randrange(1, 64))                    # all in one slot of a small table
-            elif r < 0.6:
+            elif r < 0.5:
                 pool.add(rng.randrange(1, 1 << 12))
-            elif r < 0.8:
+            elif r < 0.65:
                 pool.add(-rng.randrange(2, 1 << 20))
-            else:
+            elif r < 0.8:
                 pool.add(rng.randrange(1 << 40, 1 << 52))
+            else:
+                pool.add((1 << rng.choice([64, 70, 255])) + rng.randrange(1 << 16))
         pool = list(pool)
         rng.shuffle(pool)
         anchor, labels, unknown = pool[0], pool[1:n + 1], pool[n + 1:2 * n + 1]
-    elif scheme == "bytes":
+    elif scheme in ("bytes", "block"):
+        # "block": the header hashes depend on the forest and are made by block_forest / the duel generator;
+        # labels[i] here only serve as salts
         salt = b"%d" % rng.randrange(1 << 30)
         mk = lambda tag, i: hashlib.blake2b(b"%s:%s:%d" % (salt, tag, i), digest_size=32).digest()
         anchor, labels, unknown = ZERO, [mk(b"h", i) for i in range(n)], [mk(b"u", i) for i in range(n)]
+        if scheme == "block" and rng.random() < 0.5:
+            anchor = mk(b"a", 0)
     else:
         raise ValueError(scheme)
     if unk == "shared":
         unknown = [unknown[0]] * n
     return anchor, labels, unknown
+
+
+BIGBASE = 24 * ((1 << 61) - 1)       # hash(BIGBASE + i) == i for small i >= 0
+
+
+def block_forest(par, wts, anchor, labels, unknown):
+    """Real header bytes for a forest: par[i] = ANCHOR | UNKNOWN | index. -> (hdrs, raws) with hdrs[i] =
+    (double-SHA256 of raws[i], parent hash, weight). Parents are built before their children."""
+    n = len(par)
+    hdrs, raws = [None] * n, [None] * n
+    todo = list(range(n))
+    while todo:
+        rest = []
+        for i in todo:
+            if par[i] == RC.ANCHOR:
+                ph = anchor
+            elif par[i] == RC.UNKNOWN:
+                ph = unknown[i]
+            elif hdrs[par[i]] is not None:
+                ph = hdrs[par[i]][0]
+            else:
+                rest.append(i)
+                continue
+            raws[i] = raw_header(ph, wts[i], i, labels[i])
+            hdrs[i] = (dsha(raws[i]), ph, wts[i])
+        if len(rest) == len(todo):
+            raise ValueError("cycle")
+        todo = rest
+    return hdrs, raws
+
+
+def exh_weights(wm, n):
+    mixed = [(3 * i + 2) % 4 + 1 for i in range(n)]
+    if wm == "unit":
+        return [1] * n
+    if wm == "mixed":
+        return mixed
+    if wm == "pow":         # 3,2,1,4,.. times 2**70 plus 0,1,1,1,0,..: {0} vs {1,2} differ by 2, {3} vs {0,2} tie
+        return [(m << 70) + (1 if i % 4 else 0) for i, m in enumerate(mixed)]
+    raise ValueError(wm)
 
 
 def history_key(hdrs, events, anchor):
@@ -380,13 +665,13 @@ def history_key(hdrs, events, anchor):
     order = []
     shape = []
     for ev in events:
-        if ev[0] == "d":
+        if ev[0] != "l":
             for i in ev[1]:
                 h = hdrs[i][0]
                 if h not in pos:
                     pos[h] = len(pos)
                 order.append(pos[h])
-            shape.append(len(ev[1]))
+            shape.append(len(ev[1]) + (1000 if ev[0] == "q" else 0))
         else:
             shape.append(-ev[1] - 1)
     by_pos = sorted(pos, key=pos.get)
@@ -417,7 +702,7 @@ def _count_case(rec, hdrs, events, anchor, counted=True):
 # ---------------------------------------------------------------------------------------------------------
 # exhaustive shards
 
-def _with_locks(BlockChain, rec, anchor, hdrs, objs, events, lengths, lock_mode, lrng, tick):
+def _with_locks(BlockChain, rec, anchor, hdrs, objs, events, lengths, lock_mode, lrng, tick, mode=MODE0, raws=None):
     """every (or one sampled) single lock_to_index(k), 1 <= k <= reported length, between two batches"""
     variants = [(j, k) for j in range(len(events) - 1) for k in range(1, lengths[j] + 1)]
     if lock_mode == "sample":
@@ -428,7 +713,7 @@ def _with_locks(BlockChain, rec, anchor, hdrs, objs, events, lengths, lock_mode,
         ev2 = events[:j + 1] + [("l", k)] + events[j + 1:]
         rec.ev("history.exhaustive_with_lock")
         _count_case(rec, hdrs, ev2, anchor, tick())
-        bad, _ = run_history(BlockChain, anchor, hdrs, ev2, rec, objs)
+        bad, _ = run_history(BlockChain, anchor, hdrs, ev2, rec, objs, mode, raws)
         if bad:
             rec.violation(*bad)
 
@@ -445,6 +730,8 @@ def run_exh(spec, rec, BlockChain):
     rng = shard_rng(spec["seed"], PROPERTY, "labels", spec["scheme"] + spec["unk"])
     lrng = shard_rng(spec["seed"], PROPERTY, spec["tier"], spec["shard"], "locks")
     part, parts = spec["part"], spec["parts"]
+    mode = spec.get("mode", MODE0)
+    raws = None
     lock_mode = spec.get("locks", "none")
     every = spec.get("distinct_every", 1)
     counter = [0]
@@ -455,7 +742,7 @@ def run_exh(spec, rec, BlockChain):
     fcount = 0
     for n in range(spec.get("nmin", 1), spec["nmax"] + 1):
         anchor, labels, unknown = make_labels(spec["scheme"], spec["unk"], n, rng)
-        wts = [1] * n if spec.get("weights", "unit") == "unit" else [(3 * i + 2) % 4 + 1 for i in range(n)]
+        wts = exh_weights(spec.get("weights", "unit"), n)
         perms = list(itertools.permutations(range(n)))
         sizes_all = list(RC.batchings(n))
         sizes_dup = list(RC.batchings(n + 1))
@@ -463,19 +750,22 @@ def run_exh(spec, rec, BlockChain):
             fcount += 1
             if fcount % parts != part:
                 continue
-            hdrs = [(labels[i], anchor if pf[i] == RC.ANCHOR else unknown[i] if pf[i] == RC.UNKNOWN else labels[pf[i]], wts[i])
-                    for i in range(n)]
-            objs = [Hdr(*h) for h in hdrs]
+            if mode["rep"] == "block":
+                hdrs, raws = block_forest(pf, wts, anchor, labels, unknown)
+            else:
+                hdrs = [(labels[i], anchor if pf[i] == RC.ANCHOR else unknown[i] if pf[i] == RC.UNKNOWN else labels[pf[i]], wts[i])
+                        for i in range(n)]
+            objs = make_objs(mode["rep"], hdrs, raws)
             for order in perms:
                 for sizes in sizes_all:
                     events = _split(order, sizes)
                     rec.ev("history.exhaustive")
                     _count_case(rec, hdrs, events, anchor, tick())
-                    bad, lengths = run_history(BlockChain, anchor, hdrs, events, rec, objs)
+                    bad, lengths = run_history(BlockChain, anchor, hdrs, events, rec, objs, mode, raws)
                     if bad:
                         rec.violation(*bad)
                     elif lock_mode != "none" and len(events) > 1:
-                        _with_locks(BlockChain, rec, anchor, hdrs, objs, events, lengths, lock_mode, lrng, tick)
+                        _with_locks(BlockChain, rec, anchor, hdrs, objs, events, lengths, lock_mode, lrng, tick, mode, raws)
                 if n > spec.get("dups", 0):
                     continue
                 # one header delivered twice: every header x every later position x every batching (x locks)
@@ -486,46 +776,97 @@ def run_exh(spec, rec, BlockChain):
                             events = _split(order2, sizes)
                             rec.ev("history.exhaustive_with_duplicate")
                             _count_case(rec, hdrs, events, anchor, tick())
-                            bad, lengths = run_history(BlockChain, anchor, hdrs, events, rec, objs)
+                            bad, lengths = run_history(BlockChain, anchor, hdrs, events, rec, objs, mode, raws)
                             if bad:
                                 rec.violation(*bad)
                             elif lock_mode != "none" and len(events) > 1:
-                                _with_locks(BlockChain, rec, anchor, hdrs, objs, events, lengths, lock_mode, lrng, tick)
-    rec.sample({"kind": "exhaustive", "scheme": spec["scheme"], "anchor": anchor, "hdrs": hdrs,
+                                _with_locks(BlockChain, rec, anchor, hdrs, objs, events, lengths, lock_mode, lrng, tick, mode, raws)
+    rec.sample({"kind": "exhaustive", "scheme": spec["scheme"], "mode": mode, "anchor": anchor, "hdrs": hdrs,
                 "events": [[e[0], list(e[1])] for e in events]})
 
 
 # ---------------------------------------------------------------------------------------------------------
 # sampled shards
 
+def gen_mode(rng):
+    """-> (labeling scheme, mode) for one sampled history"""
+    r = rng.random()
+    if r < 0.22:
+        scheme, rp = rng.choice(["asc", "desc", "scat", "bytes"]), "shared"
+    elif r < 0.75:
+        scheme, rp = rng.choice(["bigasc", "bigdesc", "scat", "scat", "bytes", "bytes"]), "fresh"
+    else:
+        scheme, rp = "block", "block"
+    ctor = rng.choice(["own", "own", "default", "noargs"])
+    feed = rng.choice(["list", "list", "gen", "tuple"])
+    return scheme, {"rep": rp, "ctor": ctor, "feed": feed}
+
+
+def gen_weight_fn(rng, rp):
+    """-> a function drawing one positive integer weight; proof-of-work sized ones differ by tiny amounts"""
+    wmode = rng.random()
+    if wmode < 0.3:
+        return lambda: 1
+    if wmode < 0.6:
+        return lambda: rng.randrange(1, 5)
+    if rp == "block":           # the difficulty field has 32 bits
+        if wmode < 0.8:
+            return lambda: rng.choice([1, 2, 3, 1000, 10**6, W32, W32 - 1, rng.randrange(1, 10**4)])
+        return lambda: (1 << 31) + rng.randrange(0, 3)
+    if wmode < 0.78:
+        return lambda: rng.choice([1, 2, 3, 1000, 10**6, 2**64 + 1, rng.randrange(1, 10**4)])
+    k = rng.choice([1, 1, 2])
+    base = 1 << rng.choice([70, 70, 64, 53, 100])
+    if wmode < 0.9:
+        return lambda: base + rng.randrange(0, 3)                       # all about equal: equal lengths nearly tie
+    return lambda: rng.randrange(1, k + 2) * base + rng.randrange(0, 4)   # small multiples: different lengths nearly tie
+
+
 def gen_history(rng):
-    """-> (anchor, hdrs, plan) where plan is a list of batches of header indices (with re-deliveries) and a lock
+    """-> (anchor, hdrs, raws, batches, lockp, mode): batches = lists of header indices (with re-deliveries), a lock
     decision per gap; lock indices are chosen at run time from the reported length."""
     n = rng.choice([6, 7, 8, 9, 10, 11, 12, 13, 14])
-    scheme = rng.choice(["asc", "desc", "scat", "scat", "bytes", "bytes"])
+    scheme, mode = gen_mode(rng)
     anchor, labels, unknown = make_labels(scheme, rng.choice(["shared", "distinct"]), n, rng)
     rng.shuffle(labels)
     style = rng.random()
+    roots = rng.choice([2, 2, 3, 4])
     par = []
     for i in range(n):
         r = rng.random()
-        if i == 0 or r < 0.07:
+        if style >= 0.8:
+            # competing branches that all start at the anchor: the fork point of every reorganisation between
+            # them is the anchor itself (or the last locked block once the common part is locked)
+            if i < roots or r < 0.03:
+                par.append(RC.ANCHOR)
+            elif r < 0.06:
+                par.append(RC.UNKNOWN)
+            elif style < 0.9:
+                par.append(i - roots if rng.random() < 0.85 else rng.randrange(i))     # interleaved parallel branches
+            else:
+                par.append(i - 1 if rng.random() < 0.7 else rng.randrange(roots))      # runs, restarting near the anchor
+        elif i == 0 or r < 0.07:
             par.append(RC.ANCHOR if (i == 0 and rng.random() < 0.9) or r < 0.04 else RC.UNKNOWN)
-        elif style < 0.4:
+        elif style < 0.3:
             par.append(i - 1 if rng.random() < 0.75 else rng.randrange(i))      # long chains with forks
-        elif style < 0.7:
+        elif style < 0.55:
             par.append(rng.randrange(i))                                        # bushy
         else:
             par.append(rng.randrange(max(0, i - 3), i))                         # forks near the tip
-    wmode = rng.random()
-    if wmode < 0.4:
-        wts = [1] * n
-    elif wmode < 0.8:
-        wts = [rng.randrange(1, 5) for _ in range(n)]
+    wf = gen_weight_fn(rng, mode["rep"])
+    wts = [wf() for _ in range(n)]
+    raws = None
+    if mode["rep"] == "block":
+        hdrs, raws = block_forest(par, wts, anchor, labels, unknown)
     else:
-        wts = [rng.choice([1, 2, 3, 1000, 10**6, 2**64 + 1, rng.randrange(1, 10**4)]) for _ in range(n)]
-    hdrs = [(labels[i], anchor if par[i] == RC.ANCHOR else unknown[i] if par[i] == RC.UNKNOWN else labels[par[i]], wts[i])
-            for i in range(n)]
+        hdrs = [(labels[i], anchor if par[i] == RC.ANCHOR else unknown[i] if par[i] == RC.UNKNOWN else labels[par[i]], wts[i])
+                for i in range(n)]
+    batches = gen_batches(rng, n)
+    lockp = rng.choice([0.0, 0.15, 0.35, 0.6])
+    return anchor, hdrs, raws, batches, lockp, mode
+
+
+def gen_batches(rng, n):
     order = list(range(n))
     o = rng.random()
     if o < 0.25:
@@ -534,12 +875,14 @@ def gen_history(rng):
         for _ in range(rng.randrange(1, 4)):             # mostly in order, a few displaced
             a, b = rng.randrange(n), rng.randrange(n)
             order[a], order[b] = order[b], order[a]
+    elif o < 0.65:
+        pass                                             # in order
     else:
         rng.shuffle(order)
     for _ in range(rng.choice([0, 0, 1, 2, 4])):         # re-deliveries
         src = rng.randrange(len(order))
         order.insert(rng.randrange(src, len(order) + 1), order[src])
-    cut = rng.choice([0.15, 0.4, 0.7])
+    cut = rng.choice([0.15, 0.4, 0.7, 1.0])
     batches = [[]]
     for i in order:
         if batches[-1] and rng.random() < cut:
@@ -547,47 +890,203 @@ def gen_history(rng):
         batches[-1].append(i)
     if rng.random() < 0.1:
         batches.insert(rng.randrange(len(batches) + 1), [])      # an empty delivery
-    lockp = rng.choice([0.0, 0.15, 0.35, 0.6])
-    return anchor, hdrs, batches, lockp
+    return batches
+
+
+def _drive(rng, sess, hdrs, raws, batches, lockp, events):
+    """Generator: performs one event of the plan per next(); yields None or the failure tuple."""
+    rp = sess.mode["rep"]
+    lazy = rng.random() < 0.15          # a client that does not look at the tracker after every delivery
+    for bi, b in enumerate(batches):
+        last = bi == len(batches) - 1
+        lock_next = not last and rng.random() < lockp
+        quiet = lazy and not last and not lock_next and rng.random() < 0.7
+        events.append(["q" if quiet else "d", list(b)])
+        yield sess.deliver([make_obj(rp, hdrs[i], raws[i] if raws else None) for i in b], [hdrs[i] for i in b], quiet=quiet)
+        if lock_next:
+            n = len(sess.chain)
+            k = rng.choice([n, max(0, n - 1), rng.randrange(0, n + 1), rng.randrange(0, n + 1), 1 if n else 0])
+            events.append(["l", k])
+            yield sess.lock(k)
 
 
 def run_rand(spec, rec, BlockChain):
     rng = shard_rng(spec["seed"], PROPERTY, spec["tier"], spec["shard"])
     for it in range(spec["n"]):
-        anchor, hdrs, batches, lockp = gen_history(rng)
-        sess = Session(BlockChain, anchor, rec)
+        anchor, hdrs, raws, batches, lockp, mode = gen_history(rng)
+        twin = rng.random() < 0.12
+        if twin:
+            mode = dict(mode, ctor="default")
+        sess = Session(BlockChain, anchor, rec, mode)
         events = []
-        seen = set()
         bad = None
-        for bi, b in enumerate(batches):
-            batch = []
-            for i in b:
-                batch.append(Hdr(*hdrs[i]))
-                seen.add(i)
-            events.append(["d", list(b)])
-            bad = sess.deliver(batch)
-            if bad:
-                break
-            if bi < len(batches) - 1 and rng.random() < lockp:
-                n = len(sess.chain)
-                k = rng.choice([n, max(0, n - 1), rng.randrange(0, n + 1), rng.randrange(0, n + 1), 1 if n else 0])
-                events.append(["l", k])
-                bad = sess.lock(k)
+        if not twin:
+            for bad in _drive(rng, sess, hdrs, raws, batches, lockp, events):
                 if bad:
                     break
+            peer = None
+        else:
+            # a second live tracker built the same way sees the same headers in another order, with its own locks
+            rec.ev("history.twin")
+            sess_b = Session(BlockChain, anchor, rec, mode)
+            events_b = []
+            runs = [(_drive(rng, sess, hdrs, raws, batches, lockp, events), "a"),
+                    (_drive(rng, sess_b, hdrs, raws, gen_batches(rng, len(hdrs)), rng.choice([0.0, 0.35, 0.6]), events_b), "b")]
+            failed = None
+            while runs and not bad:
+                for g, name in list(runs):
+                    bad = next(g, "end")
+                    if bad == "end":
+                        bad = None
+                        runs.remove((g, name))
+                    elif bad:
+                        failed = name
+                        break
+            _count_case(rec, hdrs, events_b, anchor)
+            peer = (events_b, failed, sess_b)
         rec.ev("history.sampled")
         _count_case(rec, hdrs, events, anchor)
         if bad:
-            case = {"anchor": anchor, "hdrs": [list(h) for h in hdrs], "events": events}
-            mech = classify(bad[0], hdrs, events, sess)
-            small = shrink(BlockChain, case, mech, bad[0])
-            if small:
-                rec.violation(*small)
-            else:       # not reproducible from the recorded events: report as seen
-                rec.violation(mech, case, {"symptom": bad[0], "seen": bad[1], "note": "did not reproduce on re-run"}, bad[2])
+            report_sampled(BlockChain, rec, bad, anchor, hdrs, raws, events, mode, sess, peer)
         elif it < 2:
-            rec.sample({"kind": "sampled", "anchor": anchor, "hdrs": hdrs, "events": events,
+            rec.sample({"kind": "sampled", "mode": mode, "anchor": anchor, "hdrs": hdrs, "events": events,
                         "final_chain": sess.chain})
+    for it in range(spec.get("duels", 0)):
+        run_duel(rng, rec, BlockChain, sample=it < 1)
+
+
+def report_sampled(BlockChain, rec, bad, anchor, hdrs, raws, events, mode, sess, peer=None):
+    if peer is not None and peer[1] == "b":
+        events, other, sess = peer[0], events, peer[2]
+    elif peer is not None:
+        other = peer[0]
+    case = make_case(anchor, hdrs, events, mode, raws)
+    mech = classify(bad[0], hdrs, case["events"], sess)
+    if getattr(rec, "viol_count", {}).get(mech, 0) >= 4:      # only counted from here on: no need to minimise it
+        rec.violation(mech, case, {"symptom": bad[0], "seen": bad[1], "note": "not minimised"}, bad[2])
+        return
+    small = shrink(BlockChain, case, mech, bad[0])
+    if small:
+        rec.violation(*small)
+        return
+    if peer is not None:      # needs both trackers: report the pair as run
+        case["peer_events"] = make_case(anchor, hdrs, other, mode, raws)["events"]
+        case["failed_side"] = peer[1]
+        rec.violation(mech, case, {"symptom": bad[0], "seen": bad[1], "tracker": peer[1]}, bad[2])
+        return
+    # not reproducible from the recorded events: report as seen
+    rec.violation(mech, case, {"symptom": bad[0], "seen": bad[1], "note": "did not reproduce on re-run"}, bad[2])
+
+
+# histories generated against the reported chain
+
+DUEL_MAX = 40
+
+
+def run_duel(rng, rec, BlockChain, sample=False):
+    """A rival branch is grown from the lock point (the anchor, or the last locked block) or from a block above it,
+    sized from the weight of the part of the reported chain it competes with, and delivered in some order; tips and
+    arbitrary known headers get extended (flip-backs), prefixes get locked, headers are re-delivered."""
+    scheme, mode = gen_mode(rng)
+    rp = mode["rep"]
+    anchor, labels, _unknown = make_labels(scheme, "distinct", DUEL_MAX, rng)
+    rng.shuffle(labels)
+    wf = gen_weight_fn(rng, rp)
+    sess = Session(BlockChain, anchor, rec, mode)
+    hdrs, raws, events = [], ([] if rp == "block" else None), []
+    weight_of = {}
+
+    def new(parent, w=None):
+        i = len(hdrs)
+        if w is None:
+            w = wf()
+        if rp == "block":
+            raws.append(raw_header(parent, w, i, labels[i]))
+            h = dsha(raws[i])
+        else:
+            h = labels[i]
+        hdrs.append((h, parent, w))
+        weight_of[h] = w
+        return i
+
+    def deliver(idx):
+        events.append(["d", list(idx)])
+        return sess.deliver([make_obj(rp, hdrs[i], raws[i] if raws else None) for i in idx], [hdrs[i] for i in idx])
+
+    def deliver_some(idx):
+        o = rng.random()
+        if o < 0.25:
+            idx = idx[::-1]
+        elif o < 0.4:
+            rng.shuffle(idx)
+        cut = rng.choice([0.0, 0.3, 1.0])
+        k = 0
+        while k < len(idx):
+            j = k + 1
+            while j < len(idx) and rng.random() >= cut:
+                j += 1
+            bad = deliver(idx[k:j])
+            if bad:
+                return bad
+            k = j
+        return None
+
+    bad = None
+    for _step in range(rng.randrange(3, 9)):
+        if len(hdrs) > DUEL_MAX - 9:
+            break
+        chain, nl = sess.chain, len(sess.locked)
+        a = rng.random()
+        if not chain or a < 0.15:                    # the tip grows
+            tip = chain[-1] if chain else anchor
+            idx = []
+            for _ in range(rng.randrange(1, 4)):
+                idx.append(new(tip))
+                tip = hdrs[idx[-1]][0]
+            bad = deliver_some(idx)
+        elif a < 0.62:                               # a rival branch
+            j = nl if rng.random() < 0.65 else rng.randrange(nl, len(chain) + 1)
+            target = sum(weight_of[h] for h in chain[j:])
+            aim = rng.choice(["short", "tie", "over", "over", "long"])
+            ws, tot = [], 0
+            while len(ws) < 8:
+                w = wf()
+                if aim == "short" and ws and tot + w >= target:
+                    break
+                ws.append(w)
+                tot += w
+                if tot > target or (aim == "tie" and tot >= target):
+                    break
+            if aim == "long":
+                ws.append(wf())
+            tip = chain[j - 1] if j else anchor
+            idx = []
+            for w in ws:
+                idx.append(new(tip, w))
+                tip = hdrs[idx[-1]][0]
+            bad = deliver_some(idx)
+        elif a < 0.75 and hdrs:                      # some known header gets a child or two (flip-backs, dead branches)
+            tip = rng.choice(hdrs)[0]
+            idx = []
+            for _ in range(rng.randrange(1, 3)):
+                idx.append(new(tip))
+                tip = hdrs[idx[-1]][0]
+            bad = deliver_some(idx)
+        elif a < 0.82 and hdrs:                      # re-delivery
+            bad = deliver([rng.randrange(len(hdrs)) for _ in range(rng.randrange(1, 4))])
+        else:                                        # lock
+            n = len(chain)
+            k = rng.choice([n, max(0, n - 1), rng.randrange(0, n + 1), min(n, nl + 1)])
+            events.append(["l", k])
+            bad = sess.lock(k)
+        if bad:
+            break
+    rec.ev("history.duel")
+    _count_case(rec, hdrs, events, anchor)
+    if bad:
+        report_sampled(BlockChain, rec, bad, anchor, hdrs, raws, events, mode, sess)
+    elif sample:
+        rec.sample({"kind": "duel", "mode": mode, "anchor": anchor, "hdrs": hdrs, "events": events, "final_chain": sess.chain})
 
 
 class _NullRec(object):
@@ -595,8 +1094,15 @@ class _NullRec(object):
         pass
 
 
+def _case_mode(case):
+    m = dict(MODE0)
+    m.update(case.get("mode") or {})
+    return m
+
+
 def _rerun(BlockChain, case):
-    bad, _ = run_history(BlockChain, case["anchor"], [tuple(h) for h in case["hdrs"]], case["events"], _NullRec())
+    bad, _ = run_history(BlockChain, case["anchor"], [tuple(h) for h in case["hdrs"]], case["events"], _NullRec(),
+                         None, _case_mode(case), case.get("raw"))
     return bad
 
 
@@ -612,11 +1118,11 @@ def shrink(BlockChain, case, mech, symptom, budget=400):
         c0 = cur[1]
         cands = []
         for k in range(len(c0["events"])):
-            cands.append({"anchor": c0["anchor"], "hdrs": c0["hdrs"], "events": c0["events"][:k] + c0["events"][k + 1:]})
-        used = sorted({i for e in c0["events"] if e[0] == "d" for i in e[1]})
+            cands.append(dict(c0, events=c0["events"][:k] + c0["events"][k + 1:]))
+        used = sorted({i for e in c0["events"] if e[0] != "l" for i in e[1]})
         for i in used:
-            evs = [[e[0], [x for x in e[1] if x != i]] if e[0] == "d" else list(e) for e in c0["events"]]
-            cands.append({"anchor": c0["anchor"], "hdrs": c0["hdrs"], "events": evs})
+            evs = [[e[0], [x for x in e[1] if x != i]] if e[0] != "l" else list(e) for e in c0["events"]]
+            cands.append(dict(c0, events=evs))
         for c in cands:
             budget -= 1
             if budget <= 0:
@@ -631,10 +1137,12 @@ def shrink(BlockChain, case, mech, symptom, budget=400):
                 break
     # drop unused headers
     c0 = cur[1]
-    used = sorted({i for e in c0["events"] if e[0] == "d" for i in e[1]})
+    used = sorted({i for e in c0["events"] if e[0] != "l" for i in e[1]})
     ren = {i: k for k, i in enumerate(used)}
-    small = {"anchor": c0["anchor"], "hdrs": [c0["hdrs"][i] for i in used],
-             "events": [[e[0], [ren[x] for x in e[1]]] if e[0] == "d" else list(e) for e in c0["events"]]}
+    small = dict(c0, hdrs=[c0["hdrs"][i] for i in used],
+                 events=[[e[0], [ren[x] for x in e[1]]] if e[0] != "l" else list(e) for e in c0["events"]])
+    if c0.get("raw"):
+        small["raw"] = [c0["raw"][i] for i in used]
     r = _rerun(BlockChain, small)
     return r if r is not None and r[0] == mech else cur
 
@@ -646,21 +1154,31 @@ def run_shard(spec, rec):
     rec.require("add_headers", "hash_for_index", "index_for_hash", "tuple_for_index", "last_block_hash",
                 "ops_returned", "ops_callback")
     if spec["kind"] == "exh":
+        m = spec.get("mode", MODE0)
+        rec.require("add_headers.%s.%s" % (m["rep"], m["feed"]))
         if spec.get("locks", "none") != "none":
             rec.require("lock_to_index")
         run_exh(spec, rec, BlockChain)
     else:
-        rec.require("lock_to_index")
+        rec.require("lock_to_index", "history.twin", "history.duel", "add_headers.shared.list", "add_headers.fresh.list",
+                    "add_headers.fresh.gen", "add_headers.block.list", "add_headers.block.tuple", "add_headers.not_read_back")
         run_rand(spec, rec, BlockChain)
 
 
 def replay_case(case, rec):
     BlockChain = _imports()
     hdrs = [tuple(h) for h in case["hdrs"]]
-    events = [tuple(e) if e[0] == "l" else ("d", list(e[1])) for e in case["events"]]
-    bad, lengths = run_history(BlockChain, case["anchor"], hdrs, events, rec)
+    norm = lambda evs: [tuple(e) if e[0] == "l" else (e[0], list(e[1])) for e in evs]
+    events = norm(case["events"])
+    mode = _case_mode(case)
     rec.case(history_key(hdrs, events, case["anchor"]))
-    rec.note("reported lengths after each event: %r" % (lengths,))
+    if "peer_events" in case:
+        peer = norm(case["peer_events"])
+        ea, eb = (events, peer) if case.get("failed_side", "a") == "a" else (peer, events)
+        bad = run_twin(BlockChain, case["anchor"], hdrs, ea, eb, rec, mode, case.get("raw"))
+    else:
+        bad, lengths = run_history(BlockChain, case["anchor"], hdrs, events, rec, None, mode, case.get("raw"))
+        rec.note("reported lengths after each event: %r" % (lengths,))
     if bad:
         rec.violation(*bad)
 
@@ -689,6 +1207,11 @@ class _ModelChain(object):
         return self.tuple_for_index(i)[0]
 
     def index_for_hash(self, h):
+        if self.broken == "identity_lookup":
+            for i, x in enumerate(self.chain):
+                if x is h:
+                    return i
+            return None
         if self.broken == "stale_index" and h in self.d and h not in self.chain and h in getattr(self, "ever", ()):
             return 0
         return self.chain.index(h) if h in self.chain else None
@@ -764,4 +1287,26 @@ def _selftest_monitor():
         else:
             assert expect in mechs, ("monitor misses a broken model", broken, mechs)
         out[str(broken)] = {"histories": runs, "mechanisms": mechs}
+    # a tracker that compares hashes by identity: invisible with one shared table of hash objects, seen with fresh ones
+    # and with one-shot batches the model must still work
+    for rp, scheme, expect in (("shared", "bigasc", None), ("fresh", "bigasc", "chain.index_for_hash_wrong_index"),
+                               ("fresh", "bytes", "chain.index_for_hash_wrong_index")):
+        for broken in ("identity_lookup", None):
+            factory = lambda anchor, unlocked_block_storage=None, b=broken: _ModelChain(anchor, broken=b)
+            mode = {"rep": rp, "ctor": "own", "feed": "gen" if broken is None else "list"}
+            mechs, runs = {}, 0
+            anchor, labels, unknown = make_labels(scheme, "shared", 3, rng)
+            for pf in RC.parent_functions(3):
+                hdrs = [(labels[i], anchor if pf[i] == RC.ANCHOR else unknown[i] if pf[i] == RC.UNKNOWN else labels[pf[i]], 1)
+                        for i in range(3)]
+                for order in itertools.permutations(range(3)):
+                    bad, _ = run_history(factory, anchor, hdrs, [("d", [i]) for i in order], rec, None, mode)
+                    runs += 1
+                    if bad:
+                        mechs[bad[2]["symptom"]] = mechs.get(bad[2]["symptom"], 0) + 1
+            if broken is None or expect is None:
+                assert not mechs, ("monitor fires", rp, scheme, broken, mechs)
+            else:
+                assert expect in mechs, ("monitor misses identity comparison", rp, scheme, mechs)
+            out["%s/%s/%s" % (broken, rp, scheme)] = {"histories": runs, "mechanisms": mechs}
     return out
